@@ -1,0 +1,213 @@
+//go:build verif
+
+// Contracts for filter evaluation (C01): what each typed node evaluates to, in terms of what its operands evaluate to
+// (nodeSem for boolean operands, sNull/sVal, iNull/iVal, fNull/fVal, dNull/dInst for typed ones) on the row the symbol
+// table stands on. Each postcondition is the documented meaning of the node; it is proved on the node's Eval body
+// against the interface-level contracts of its operands. Comments only.
+package ast
+
+// cmpOp(op, lt, eq): the outcome of comparison operator op on two non-null operands of which the left is smaller (lt) /
+// equal (eq) to the right
+//@ spec cmpOp(op Int, lt Bool, eq Bool) Bool = (ite (= op 0) eq (ite (= op 1) (not eq) (ite (= op 2) lt (ite (= op 3) (or lt eq) (ite (= op 4) (and (not lt) (not eq)) (ite (= op 5) (not lt) false))))))
+//@ define st(s) = symRow[s]
+
+// ---- connectives ----
+//@ func (*NotExprNode).EvalBool
+//@   props C01
+//@   pure
+//@   ensures[negation] result == !nodeSem(node.expr, st(s))
+//@ func (*AndExprNode).EvalBool
+//@   props C01
+//@   pure
+//@   ensures[conjunction] result == (nodeSem(node.left, st(s)) && nodeSem(node.right, st(s)))
+//@ func (*OrExprNode).EvalBool
+//@   props C01
+//@   pure
+//@   ensures[disjunction] result == (nodeSem(node.left, st(s)) || nodeSem(node.right, st(s)))
+//@ func (*BinaryBoolExprNode).EvalBool
+//@   props C01
+//@   pure
+//@   ensures[equal] node.op == BinaryOpEQ ==> result == (nodeSem(node.left, st(s)) == nodeSem(node.right, st(s)))
+//@   ensures[not-equal] node.op == BinaryOpNEQ ==> result == (nodeSem(node.left, st(s)) != nodeSem(node.right, st(s)))
+//@   ensures[other-operators-false] node.op != BinaryOpEQ && node.op != BinaryOpNEQ ==> !result
+
+// ---- typed comparisons: a null operand makes every comparison false, except != which is then true exactly when
+// the other operand is not null ----
+//@ func (*BinaryInt64ExprNode).EvalBool
+//@   props C01
+//@   pure
+//@   ensures[null-rule] iNull(node.left, st(s)) || iNull(node.right, st(s)) ==> result == (node.op == BinaryOpNEQ && iNull(node.left, st(s)) != iNull(node.right, st(s)))
+//@   ensures[comparison] !iNull(node.left, st(s)) && !iNull(node.right, st(s)) ==> result == cmpOp(node.op, iVal(node.left, st(s)) < iVal(node.right, st(s)), iVal(node.left, st(s)) == iVal(node.right, st(s)))
+//@ func (*BinaryFloat64ExprNode).EvalBool
+//@   props C01
+//@   pure
+//@   ensures[null-rule] fNull(node.left, st(s)) || fNull(node.right, st(s)) ==> result == (node.op == BinaryOpNEQ && fNull(node.left, st(s)) != fNull(node.right, st(s)))
+//@   ensures[comparison] !fNull(node.left, st(s)) && !fNull(node.right, st(s)) ==> result == cmpOp(node.op, fVal(node.left, st(s)) < fVal(node.right, st(s)), fVal(node.left, st(s)) == fVal(node.right, st(s)))
+//@ func (*BinaryDatetimeExprNode).EvalBool
+//@   props C01
+//@   pure
+//@   ensures[null-rule] dNull(node.left, st(s)) || dNull(node.right, st(s)) ==> result == (node.op == BinaryOpNEQ && dNull(node.left, st(s)) != dNull(node.right, st(s)))
+//@   ensures[comparison] !dNull(node.left, st(s)) && !dNull(node.right, st(s)) ==> result == cmpOp(node.op, dInst(node.left, st(s)) < dInst(node.right, st(s)), dInst(node.left, st(s)) == dInst(node.right, st(s)))
+//@ func (*BinaryStringExprNode).EvalBool
+//@   props C01
+//@   pure
+//@   ensures[null-rule] sNull(node.left, st(s)) || sNull(node.right, st(s)) ==> result == ((node.op == BinaryOpNEQ && sNull(node.left, st(s)) != sNull(node.right, st(s))) || node.op == BinaryOpNotContains || node.op == BinaryOpNotIContains)
+//@   ensures[comparison] !sNull(node.left, st(s)) && !sNull(node.right, st(s)) && node.op <= BinaryOpGTE ==> result == cmpOp(node.op, sVal(node.left, st(s)) < sVal(node.right, st(s)), sVal(node.left, st(s)) == sVal(node.right, st(s)))
+//@   ensures[contains] !sNull(node.left, st(s)) && !sNull(node.right, st(s)) && node.op == BinaryOpContains ==> result == str_contains(sVal(node.left, st(s)), sVal(node.right, st(s)))
+//@   ensures[not-contains] !sNull(node.left, st(s)) && !sNull(node.right, st(s)) && node.op == BinaryOpNotContains ==> result == !str_contains(sVal(node.left, st(s)), sVal(node.right, st(s)))
+
+// ---- between: lower bound inclusive, upper bound exclusive; a null operand makes it false ----
+//@ func (*Int64BetweenExprNode).EvalBool
+//@   props C01
+//@   pure
+//@   ensures[half-open-interval] result == (!iNull(node.left, st(s)) && !iNull(node.lower, st(s)) && !iNull(node.upper, st(s)) && iVal(node.lower, st(s)) <= iVal(node.left, st(s)) && iVal(node.left, st(s)) < iVal(node.upper, st(s)))
+//@ func (*Float64BetweenExprNode).EvalBool
+//@   props C01
+//@   pure
+//@   ensures[half-open-interval] result == (!fNull(node.left, st(s)) && !fNull(node.lower, st(s)) && !fNull(node.upper, st(s)) && fVal(node.lower, st(s)) <= fVal(node.left, st(s)) && fVal(node.left, st(s)) < fVal(node.upper, st(s)))
+//@ func (*DatetimeBetweenExprNode).EvalBool
+//@   props C01
+//@   pure
+//@   ensures[half-open-interval] result == (!dNull(node.left, st(s)) && !dNull(node.lower, st(s)) && !dNull(node.upper, st(s)) && dInst(node.lower, st(s)) <= dInst(node.left, st(s)) && dInst(node.left, st(s)) < dInst(node.upper, st(s)))
+
+// ---- in [array]: true iff the left value is not null and equals some non-null element ----
+//@ func (*InStringArrayExprNode).EvalBool
+//@   props C01
+//@   pure
+//@   ensures[member] result == (!sNull(node.left, st(s)) && exists(i, 0 <= i && i < len(node.right.values) && !sNull(node.right.values[i], st(s)) && sVal(node.left, st(s)) == sVal(node.right.values[i], st(s))))
+//@   invariant 1: forall(i, 0 <= i && i <= rangeindex ==> !(!sNull(node.left, st(s)) && !sNull(node.right.values[i], st(s)) && sVal(node.left, st(s)) == sVal(node.right.values[i], st(s))))
+//@ func (*InInt64ArrayExprNode).EvalBool
+//@   props C01
+//@   pure
+//@   ensures[member] result == (!iNull(node.left, st(s)) && exists(i, 0 <= i && i < len(node.right.values) && !iNull(node.right.values[i], st(s)) && iVal(node.left, st(s)) == iVal(node.right.values[i], st(s))))
+//@   invariant 1: forall(i, 0 <= i && i <= rangeindex ==> !(!iNull(node.left, st(s)) && !iNull(node.right.values[i], st(s)) && iVal(node.left, st(s)) == iVal(node.right.values[i], st(s))))
+//@ func (*InFloat64ArrayExprNode).EvalBool
+//@   props C01
+//@   pure
+//@   ensures[member] result == (!fNull(node.left, st(s)) && exists(i, 0 <= i && i < len(node.right.values) && !fNull(node.right.values[i], st(s)) && fVal(node.left, st(s)) == fVal(node.right.values[i], st(s))))
+//@   invariant 1: forall(i, 0 <= i && i <= rangeindex ==> !(!fNull(node.left, st(s)) && !fNull(node.right.values[i], st(s)) && fVal(node.left, st(s)) == fVal(node.right.values[i], st(s))))
+//@ func (*InDatetimeArrayExprNode).EvalBool
+//@   props C01
+//@   pure
+//@   ensures[member] result == (!dNull(node.left, st(s)) && exists(i, 0 <= i && i < len(node.right.values) && !dNull(node.right.values[i], st(s)) && dInst(node.left, st(s)) == dInst(node.right.values[i], st(s))))
+//@   invariant 1: forall(i, 0 <= i && i <= rangeindex ==> !(!dNull(node.left, st(s)) && !dNull(node.right.values[i], st(s)) && dInst(node.left, st(s)) == dInst(node.right.values[i], st(s))))
+
+// ---- conversions, constants, symbols ----
+//@ func (*Int64ToFloat64Node).EvalFloat64
+//@   props C01
+//@   pure
+//@   ensures[widened] (result == nil) == iNull(node.wrapped, st(s)) && (result != nil ==> *result == real(iVal(node.wrapped, st(s))))
+//@ func (*Int64ToFloat64Node).EvalString
+//@   props C01
+//@   pure
+//@   ensures[same-as-wrapped] (result == nil) == sNull(node.wrapped, st(s)) && (result != nil ==> *result == sVal(node.wrapped, st(s)))
+//@ func (*BoolConstNode).EvalBool
+//@   props C01
+//@   pure
+//@   ensures[the-constant] result == node.value
+//@ func (*Int64ConstNode).EvalInt64
+//@   props C01
+//@   pure
+//@   ensures[the-constant] result != nil && *result == node.value
+//@ func (*Int64ConstNode).EvalString
+//@   props C01
+//@   pure
+//@   ensures[decimal] result != nil && *result == fmtInt(node.value)
+//@ func (*Float64ConstNode).EvalFloat64
+//@   props C01
+//@   pure
+//@   ensures[the-constant] result != nil && *result == node.value
+//@ func (*Float64ConstNode).EvalString
+//@   props C01
+//@   pure
+//@   ensures[decimal] result != nil && *result == fmtFloat(node.value)
+//@ func (*StringConstNode).EvalString
+//@   props C01
+//@   pure
+//@   ensures[the-constant] result != nil && *result == node.value
+//@ func (*DatetimeConstNode).EvalDatetime
+//@   props C01
+//@   pure
+//@   ensures[the-constant] result != nil && timeInstant(*result) == timeInstant(*node.value)
+//@ func (*BoolSymbolNode).EvalBool
+//@   props C01
+//@   pure
+//@   ensures[null-is-false] result == (!ybNull(s, st(s), node.symbol) && ybVal(s, st(s), node.symbol))
+//@ func (*AnyTypeSymbolNode).EvalBool
+//@   props C01
+//@   pure
+//@   ensures[null-is-false] result == (!ybNull(s, st(s), node.symbol) && ybVal(s, st(s), node.symbol))
+//@ func (*StringSymbolNode).EvalString
+//@   props C01
+//@   pure
+//@   ensures[the-stored-value] (result == nil) == ysNull(s, st(s), node.symbol) && (result != nil ==> *result == ysVal(s, st(s), node.symbol))
+//@ func (*AnyTypeSymbolNode).EvalString
+//@   props C01
+//@   pure
+//@   ensures[the-stored-value] (result == nil) == ysNull(s, st(s), node.symbol) && (result != nil ==> *result == ysVal(s, st(s), node.symbol))
+//@ func (*Int64SymbolNode).EvalInt64
+//@   props C01
+//@   pure
+//@   ensures[the-stored-value] (result == nil) == yiNull(s, st(s), node.symbol) && (result != nil ==> *result == yiVal(s, st(s), node.symbol))
+//@ func (*AnyTypeSymbolNode).EvalInt64
+//@   props C01
+//@   pure
+//@   ensures[the-stored-value] (result == nil) == yiNull(s, st(s), node.symbol) && (result != nil ==> *result == yiVal(s, st(s), node.symbol))
+//@ func (*Float64SymbolNode).EvalFloat64
+//@   props C01
+//@   pure
+//@   ensures[the-stored-value] (result == nil) == yfNull(s, st(s), node.symbol) && (result != nil ==> *result == yfVal(s, st(s), node.symbol))
+//@ func (*AnyTypeSymbolNode).EvalFloat64
+//@   props C01
+//@   pure
+//@   ensures[the-stored-value] (result == nil) == yfNull(s, st(s), node.symbol) && (result != nil ==> *result == yfVal(s, st(s), node.symbol))
+//@ func (*DatetimeSymbolNode).EvalDatetime
+//@   props C01
+//@   pure
+//@   ensures[the-stored-value] (result == nil) == ydNull(s, st(s), node.symbol) && (result != nil ==> timeInstant(*result) == ydInst(s, st(s), node.symbol))
+//@ func (*AnyTypeSymbolNode).EvalDatetime
+//@   props C01
+//@   pure
+//@   ensures[the-stored-value] (result == nil) == ydNull(s, st(s), node.symbol) && (result != nil ==> timeInstant(*result) == ydInst(s, st(s), node.symbol))
+//@ func (*Int64SymbolNode).EvalString
+//@   props C01
+//@   pure
+//@   ensures[decimal-of-the-stored-value] (result == nil) == yiNull(s, st(s), node.symbol) && (result != nil ==> *result == fmtInt(yiVal(s, st(s), node.symbol)))
+//@ func (*Float64SymbolNode).EvalString
+//@   props C01
+//@   pure
+//@   ensures[decimal-of-the-stored-value] (result == nil) == yfNull(s, st(s), node.symbol) && (result != nil ==> *result == fmtFloat(yfVal(s, st(s), node.symbol)))
+// x = null / x != null
+//@ func (*IsNilExprNode).EvalBool
+//@   props C01
+//@   pure
+//@   ensures[is-null] node.op == BinaryOpEQ ==> result == yIsNil(s, st(s), symName(node.symbol))
+//@   ensures[is-not-null] node.op == BinaryOpNEQ ==> result == !yIsNil(s, st(s), symName(node.symbol))
+//@ spec symName(n Int) Str
+// a string function (lower-casing for icontains) maps null to null and a value to f(value)
+//@ spec sfApply(n Int, v Str) Str
+//@ funcfield StringFuncNode.f(v)
+//@   pure
+//@   ensures result == sfApply(self, v)
+//@ func (*StringFuncNode).EvalString
+//@   props C01
+//@   pure
+//@   ensures[maps-the-operand] (result == nil) == sNull(self.expr, st(s)) && (result != nil ==> *result == sfApply(self, sVal(self.expr, st(s))))
+// count / isEmpty over a set: the number of elements the opened cursor enumerates / whether there is none
+//@ func (*CountSetExprNode).EvalInt64
+//@   props C01
+//@   pure
+//@   lensures[number-of-elements] result != nil && *result == curLen[cursor]
+//@   invariant 1: cursor != nil && fresh(cursor) && 0 <= curPos[cursor] && curPos[cursor] <= curLen[cursor] && curLen[cursor] < MaxInt64 && *local(result) == curPos[cursor]
+//@ func (*CountSetExprNode).EvalString
+//@   props C01
+//@   pure
+//@ func (*IsEmptySetExprNode).EvalBool
+//@   props C01
+//@   pure
+//@   lensures[no-element] result == (curLen[cursor] == 0)
+// the whole query evaluates its predicate
+//@ func (*queryNode).EvalBool
+//@   props C01
+//@   pure
+//@   ensures[the-predicate] result == nodeSem(node.Predicate, st(s))
